@@ -46,6 +46,7 @@ static uint64_t param(const char* name)
         if (s.compare(pos, key.size(), key) == 0) return strtoull(s.c_str() + pos + key.size(), nullptr, 10);
         pos = e + 1;
     }
+    if (!strcmp(name, "xd")) return 0;      // optional run parameter (default keeps the earlier behaviour)
     printf("MISSING-PARAM %s\n", name); _exit(78);
 }
 uint64_t verif_len() { return param("len"); }
